@@ -169,3 +169,22 @@ Theorem update_noop :
     forallb (fun p => dop_eqb (fst p) DKeep) script = true ->
     update_children Nd St gen children index first script = Some res -> res = children.
 Proof. exact update_children_noop. Qed.
+
+(* ---- 7. update_sizes / SizesRecord.set_LTH, set_PC ------------------------------------------------ *)
+
+(* No $SIZES option — hence no $SIZES record inserted or changed — at or below the documented defaults (thresholds
+   regenerated from sizes_record.py: LTH is dropped below 101 thetas, PC is only set above 30 compartments) ... *)
+Theorem sizes_no_insertion : forall (nth ncomp : nat) (cs : bool),
+  nth <= 100 -> (cs = false \/ ncomp <= 30) -> sizes_opts static_sizes nth ncomp cs = Some [].
+Proof. intros nth ncomp cs H1 H2. apply sizes_no_insertion_lemma; [vm_compute; repeat constructor | cbn; apply le_n_S; exact H1 | exact H2]. Qed.
+
+(* ... and only then. *)
+Theorem sizes_insertion_only_above : forall (nth ncomp : nat) (cs : bool),
+  sizes_opts static_sizes nth ncomp cs = Some [] -> nth <= 100 /\ (cs = false \/ ncomp <= 30).
+Proof. intros nth ncomp cs H. destruct (sizes_insertion_lemma _ _ _ _ H) as [H1 H2]. split; [apply le_S_n; exact H1 | exact H2]. Qed.
+
+(* update_sizes leaves the record list alone when no option is needed. *)
+Theorem update_sizes_identity :
+  forall (A : Type) (rname : A -> text) (rid : A -> positive) (order : list text) (l : list A) (new : A),
+    update_sizes_records A rname rid order l false new = l.
+Proof. exact update_sizes_not_needed. Qed.
